@@ -425,6 +425,35 @@ func main() {
 		if keys == nil {
 			keys = []any{}
 		}
+		// the same restriction over other sources: an extended copy of the columns (not stored,
+		// so never raw), renamed columns, and a second where on top of a first one
+		alt := func(prefix string) string {
+			s, _ := e.render(func(i int) string {
+				if col[i] >= 0 {
+					return prefix + fields[col[i]]
+				}
+				return consts[i].lit
+			})
+			return s
+		}
+		getK := func(h *Header, row Row) any { return ToInt(row.GetVal(h, "k", th, nil)) }
+		var others []any
+		for _, q := range []struct{ form, q string }{
+			{"where-extend", "t extend xa = a, xb = b, xc = c, xd = d where " + alt("x")},
+			{"where-rename", "t rename a to ra, b to rb, c to rc, d to rd where " + alt("r")},
+			{"where-where", "t where k > 0 where " + src},
+			{"where-sort", "t where " + src + " sort b"},
+		} {
+			ks, exc := runQuery(q.q, getK)
+			if ks == nil {
+				ks = []any{}
+			}
+			others = append(others, map[string]any{"form": q.form, "r": resJSON{exc}, "keys": ks, "msg": exc.M})
+			if exc.C == "other" {
+				stats["unclassified"]++
+				fmt.Fprintf(os.Stderr, "unclassified query exception for %s: %s\n", q.q, exc.M)
+			}
+		}
 		zs, xexc := runQuery("t extend z = "+src+" sort k", func(h *Header, row Row) any {
 			return resJSON{catch(func() Value { return row.GetVal(h, "z", th, nil) })}
 		})
@@ -433,7 +462,7 @@ func main() {
 		}
 		tr.Emit(vh.E("QExpr", "src", src, "x", e.JSON(), "col", cols, "cv", cvals,
 			"val", vals, "raw", raws, "fn", fns,
-			"where", resJSON{wexc}, "keys", keys, "extend", resJSON{xexc}, "zs", zs,
+			"where", resJSON{wexc}, "keys", keys, "extend", resJSON{xexc}, "zs", zs, "others", others,
 			"msg", []string{wexc.M, xexc.M}))
 		stats["exprs"]++
 		if canRaw {
